@@ -239,6 +239,9 @@ def _registry():
     # ---- interpolate
     I = 'mahotas.interpolate.'
     reg('shift', I + 'shift', lambda g: dict(array=g.fl(g.shape(2, 4))), lambda f, a: f(a['array'], [1, 0.5], order=3))
+    # the shift itself as a float64 ndarray argument: it must come back unchanged (the wrapper flips its sign internally)
+    reg('shift_arr', I + 'shift', lambda g: dict(array=g.fl(g.shape(2, 4)), shift=np.array([1.0, -0.5])),
+        lambda f, a: f(a['array'], a['shift'], order=1))
     reg('shift_order1', I + 'shift', lambda g: dict(array=g.fl(g.shape(2, 4))), lambda f, a: f(a['array'], [1, 0.5], order=1))
     reg('zoom', I + 'zoom', lambda g: dict(array=g.fl(g.shape(2, 4))), lambda f, a: f(a['array'], 1.5, order=3))
     reg('zoom_order1', I + 'zoom', lambda g: dict(array=g.fl(g.shape(2, 4))), lambda f, a: f(a['array'], 1.5, order=1))
@@ -501,7 +504,7 @@ def _heap_runs(cases):
 # keys
 
 GROUP = {'locmax': 'locminmax', 'locmin': 'locminmax', 'regmax': 'locminmax', 'regmin': 'locminmax',
-         'shift_order1': 'interpolate', 'zoom_order1': 'interpolate',
+         'shift_order1': 'interpolate', 'shift_arr': 'interpolate', 'zoom_order1': 'interpolate',
          'lbp_transform': 'lbp'}
 CANON_KEYS = {('locminmax', 'differs'): 'locminmax:layout',
               ('locminmax', 'heap'): 'locminmax:layout',     # the misplaced reads also reach memory outside the array
